@@ -32,6 +32,7 @@ func init() {
 	kinds[0x0203] = runRecvAbs
 	kinds[0x0204] = runResync
 	kinds[0x0501] = runRecvAbs
+	kinds[0x0502] = runRecvAbs
 	props["C05"] = genC05
 }
 
@@ -183,6 +184,18 @@ func c05Header(st *types.Stat) []byte {
 	b = append(b, 0)
 	b = append(b, []byte(st.Linkname)...)
 	b = append(b, 0)
+	// the xattrs, in key order: key NUL length value
+	keys := make([]string, 0, len(st.Xattrs))
+	for k := range st.Xattrs {
+		keys = append(keys, k)
+	}
+	sort.Strings(keys)
+	for _, k := range keys {
+		b = append(b, []byte(k)...)
+		b = append(b, 0)
+		b = append(b, le64(uint64(len(st.Xattrs[k])))...)
+		b = append(b, st.Xattrs[k]...)
+	}
 	return b
 }
 
@@ -190,16 +203,47 @@ type digester interface{ Digest() digest.Digest }
 
 // c05Filter: the receiver's Filter (ReceiveOpt.Filter: handed to the differ AND to the
 // DiskWriter), selectable by code (mirrors Glue.RecvG.wf_of): 0 none; 1 umask 022; 2 ownership
-// reset to 7:8; 3 umask 027 + mtime truncated to whole seconds.
+// reset to 7:8; 3 umask 027 + mtime truncated to whole seconds; 4 reject the subtree "b" (the
+// entry and everything below it); 5 every xattr VALUE patched IN PLACE in the copy the filter is
+// given (first byte xor 0xff); 6 the xattr MAP of the copy edited (user.z deleted, user.a added)
+// and uid set to 7.
 func c05Filter(code int) fsutil.FilterFunc {
 	switch code {
+	case 4:
+		return func(p string, s *types.Stat) bool { return !(p == "b" || strings.HasPrefix(p, "b/")) }
+	case 5:
+		return func(p string, s *types.Stat) bool {
+			for _, v := range s.Xattrs {
+				if len(v) > 0 {
+					v[0] ^= 0xff
+				}
+			}
+			return true
+		}
+	case 6:
+		return func(p string, s *types.Stat) bool {
+			delete(s.Xattrs, "user.z")
+			if s.Xattrs == nil {
+				s.Xattrs = map[string][]byte{}
+			}
+			s.Xattrs["user.a"] = []byte{1}
+			s.Uid = 7
+			return true
+		}
 	case 1:
-		return func(p string, s *types.Stat) bool { s.Mode &^= 0022; return true }
+		return func(p string, s *types.Stat) bool {
+			if os.FileMode(s.Mode)&os.ModeSymlink == 0 { // a symbolic link has no permission bits of its own on Linux
+				s.Mode &^= 0022
+			}
+			return true
+		}
 	case 2:
 		return func(p string, s *types.Stat) bool { s.Uid, s.Gid = 7, 8; return true }
 	case 3:
 		return func(p string, s *types.Stat) bool {
-			s.Mode &^= 0027
+			if os.FileMode(s.Mode)&os.ModeSymlink == 0 {
+				s.Mode &^= 0027
+			}
 			s.ModTime -= s.ModTime % 1e9
 			return true
 		}
@@ -214,6 +258,13 @@ func c05Filter(code int) fsutil.FilterFunc {
 //	diff is done, then completed one by one in the k-th pseudo-random order
 //
 // output: (walkedA reqs notifs final err)
+// kind 0502 = kind 0501 through the REAL fsutil.Send / fsutil.Receive: same input, same output;
+// the source listing B is served by a synthetic fsutil.FS (MemFS: the stats exactly as given),
+// the receiver runs with NotifyHashed and a ContentHasher over the same header whose Sum is
+// SLOW (the digest of a file must be final when its notification is delivered, however long the
+// caller's hash takes).  An input is marked as 0502 by a seventh element (#1).
+func c05IsE2E(in Sx) bool { return len(in.L) > 6 && in.L[6].IsTrue() }
+
 func runRecvAbs(in Sx) (out Sx) {
 	type res struct{ v Sx }
 	done := make(chan res, 1)
@@ -283,7 +334,15 @@ func recvAbs(ctx context.Context, in Sx) Sx {
 	if mode == 0 {
 		lower = walked
 	}
-	reqs, notifs, failed, hang := c05Sync(ctx, dest, lower, listB, contentB, differ, order, c05Filter(filter))
+	var reqs []string
+	var notifs []Sx
+	var failed bool
+	var hang string
+	if c05IsE2E(in) {
+		reqs, notifs, failed, hang = c05SyncE2E(ctx, dest, Bl, differ, mode == 1, c05Filter(filter))
+	} else {
+		reqs, notifs, failed, hang = c05Sync(ctx, dest, lower, listB, contentB, differ, order, c05Filter(filter))
+	}
 	if hang != "" {
 		return L(N(0xffff), S(hang))
 	}
@@ -404,7 +463,10 @@ func c05Sync(ctx context.Context, dest string, lower, listB []*types.Stat, conte
 				m := fi.Mode()
 				st := fi.Sys().(*types.Stat)
 				if !m.IsDir() && m&os.ModeDevice == 0 && m&os.ModeNamedPipe == 0 && m&os.ModeSymlink == 0 && st.Linkname == "" {
-					expected++
+					// (a change the filter rejects is dropped without a request)
+					if filter == nil || filter(p, st.CloneVT()) {
+						expected++
+					}
 				}
 			}
 			return e
@@ -460,6 +522,116 @@ func c05Sync(ctx context.Context, dest string, lower, listB []*types.Stat, conte
 	return reqs, notifs, failed, ""
 }
 
+// slowHash: the transparent hash with a Sum that takes its time
+type slowHash struct{ idHash }
+
+func (h *slowHash) Sum(b []byte) []byte {
+	time.Sleep(2 * time.Millisecond)
+	return h.idHash.Sum(b)
+}
+
+// c05TreeOf builds the tree value of a flat listing (path order, ancestor-closed).
+func c05TreeOf(es []flatEntry) []*MNode {
+	root := &MNode{}
+	byPath := map[string]*MNode{"": root}
+	for _, e := range es {
+		dir, name := "", e.St.Path
+		if i := strings.LastIndexByte(e.St.Path, '/'); i >= 0 {
+			dir, name = e.St.Path[:i], e.St.Path[i+1:]
+		}
+		parent := byPath[dir]
+		if parent == nil {
+			parent = root // malformed listing: keep the entry at the top (the receiver will reject the stream)
+			name = e.St.Path
+		}
+		n := &MNode{Name: name, Stat: e.St.CloneVT(), Content: e.Content}
+		parent.Kids = append(parent.Kids, n)
+		byPath[e.St.Path] = n
+	}
+	return root.Kids
+}
+
+// c05SyncE2E: ONE synchronisation of the listing Bl into dest through the real Send and Receive
+// over an in-memory stream.
+func c05SyncE2E(ctx context.Context, dest string, Bl []flatEntry, differ int, merge bool, filter fsutil.FilterFunc) (reqs []string, notifs []Sx, failed bool, hang string) {
+	tctx, cancel := context.WithCancel(ctx)
+	defer cancel()
+	sp := NewStreamPair(tctx, 16)
+	var mu sync.Mutex
+	opt := fsutil.ReceiveOpt{Merge: merge, Differ: fsutil.DiffType(differ), Filter: filter,
+		ContentHasher: func(st *types.Stat) (hash.Hash, error) {
+			h := &slowHash{}
+			h.Write(c05Header(st))
+			return h, nil
+		},
+		NotifyHashed: func(k fsutil.ChangeKind, p string, fi os.FileInfo, err error) error {
+			var rec Sx
+			if fi == nil {
+				rec = L(NI(int(k)), S(p))
+			} else {
+				st, _ := fi.Sys().(*types.Stat)
+				dg := []byte{}
+				if d, ok := fi.(digester); ok {
+					s := string(d.Digest())
+					if i := strings.IndexByte(s, ':'); i >= 0 {
+						s = s[i+1:]
+					}
+					dg, _ = hex.DecodeString(s)
+				}
+				rec = L(NI(int(k)), S(p), StatSx(st), B(dg))
+			}
+			mu.Lock()
+			notifs = append(notifs, rec)
+			mu.Unlock()
+			return nil
+		},
+	}
+	src := &MemFS{Roots: c05TreeOf(Bl)}
+	sdone := make(chan error, 1)
+	rdone := make(chan error, 1)
+	go func() {
+		err := fsutil.Send(tctx, sp.A, src, nil)
+		sp.A.CloseSend()
+		sdone <- err
+	}()
+	go func() { rdone <- fsutil.Receive(tctx, sp.B, dest, opt) }()
+	timer := time.After(12 * time.Second)
+	var sOK, rOK bool
+	for !(sOK && rOK) {
+		select {
+		case err := <-sdone:
+			sOK = true
+			if err != nil {
+				failed = true
+				sp.TearDown(nil)
+			}
+		case err := <-rdone:
+			rOK = true
+			if err != nil {
+				failed = true
+				sp.TearDown(nil)
+			}
+		case <-timer:
+			sp.TearDown(nil)
+			cancel()
+			return nil, nil, true, "hang in Send/Receive"
+		}
+	}
+	for _, lp := range sp.Log() {
+		if lp.From == "r" && lp.P.Type == types.PACKET_REQ {
+			if int(lp.P.ID) < len(Bl) {
+				reqs = append(reqs, Bl[lp.P.ID].St.Path)
+			} else {
+				reqs = append(reqs, "?")
+			}
+		}
+	}
+	mu.Lock()
+	defer mu.Unlock()
+	sort.Slice(reqs, func(a, b int) bool { return fsutil.ComparePath(reqs[a], reqs[b]) < 0 })
+	return reqs, notifs, failed, ""
+}
+
 // kind 0204 (C02): TWO synchronisations of the same source listing B into a destination that
 // starts as A.  input (differ order A B); the first uses the case's differ, the second
 // DiffMetadata.  output (walked1 failed1 walked2 reqs2 notifs2 failed2): the destination as
@@ -492,6 +664,10 @@ func runResync(in Sx) (out Sx) {
 func c02Resync(ctx context.Context, in Sx) Sx {
 	differ, order := in.L[0].Int(), in.L[1].U64()
 	A, Bl := sxEntries(in.L[2]), sxEntries(in.L[3])
+	filter := 0
+	if len(in.L) > 4 {
+		filter = in.L[4].Int()
+	}
 	work := WorkDir("c02r-")
 	defer os.RemoveAll(work)
 	dest := filepath.Join(work, "d")
@@ -522,7 +698,7 @@ func c02Resync(ctx context.Context, in Sx) Sx {
 	if err != nil {
 		return L(N(0xffff), S("walk: "+err.Error()))
 	}
-	_, _, failed1, hang := c05Sync(ctx, dest, w1, listB, contentB, differ, order, nil)
+	_, _, failed1, hang := c05Sync(ctx, dest, w1, listB, contentB, differ, order, c05Filter(filter))
 	if hang != "" {
 		return L(N(0xffff), S(hang))
 	}
@@ -533,7 +709,7 @@ func c02Resync(ctx context.Context, in Sx) Sx {
 	if err != nil {
 		return L(N(0xffff), S("walk 2: "+err.Error()))
 	}
-	reqs2, notifs2, failed2, hang := c05Sync(ctx, dest, w2, listB, contentB, 0, order, nil)
+	reqs2, notifs2, failed2, hang := c05Sync(ctx, dest, w2, listB, contentB, 0, order, c05Filter(filter))
 	if hang != "" {
 		return L(N(0xffff), S(hang))
 	}
@@ -605,6 +781,8 @@ func genRecvCases(g *Gen, kind uint64, n int, directedRelink bool) {
 	for i := 0; i < n; i++ {
 		o := TreeOpts{MaxEntries: 3 + r.Intn(12), MaxDepth: 1 + r.Intn(3), Types: r.Chance(60), HardLinks: r.Chance(35),
 			Owners: r.Chance(50), Names: names, BigFiles: r.Chance(5)}
+		xattrs := (kind == 0x0501 || kind == 0x0502) && r.Chance(40)
+		o.Xattrs = xattrs
 		va := GenView(r, o)
 		var vb []*MNode
 		cls := "edited"
@@ -627,7 +805,9 @@ func genRecvCases(g *Gen, kind uint64, n int, directedRelink bool) {
 			cls = "from-empty"
 		}
 		c05StripX(va)
-		c05StripX(vb)
+		if !xattrs {
+			c05StripX(vb) // kind 0501: the source entries may carry xattrs (the header hashed covers them)
+		}
 		A, Bl := flattenView(va), flattenView(vb)
 		c05FixLinks(A)
 		c05FixLinks(Bl)
@@ -712,17 +892,29 @@ func genRecvCases(g *Gen, kind uint64, n int, directedRelink bool) {
 			order = 1 + uint64(r.Intn(1000))
 		}
 		if kind == 0x0204 {
-			if !c02EmitResync(g, differ, order, A, Bl, cls) {
+			filter := 0
+			if r.Chance(35) {
+				filter = 1 + r.Intn(4)
+				cls += "+filter"
+			}
+			if !c02EmitResyncF(g, differ, order, filter, A, Bl, cls) {
 				skipped++
 			}
 			continue
 		}
 		in := L(NI(differ), NI(mode), N(order), entriesSx(A), entriesSx(Bl))
-		if kind == 0x0501 && r.Chance(25) {
+		if (kind == 0x0501 || kind == 0x0502) && r.Chance(25) {
 			// the receiver's Filter (differ + DiskWriter): the disk gets the rewritten stat, the
 			// notification and the hashed header keep the stat as sent
-			in = L(NI(differ), NI(mode), N(order), entriesSx(A), entriesSx(Bl), NI(1+r.Intn(3)))
+			in = L(NI(differ), NI(mode), N(order), entriesSx(A), entriesSx(Bl), NI(1+r.Intn(6)))
 			cls += "+filter"
+		}
+		if kind == 0x0502 {
+			f := 0
+			if len(in.L) > 5 {
+				f = in.L[5].Int()
+			}
+			in = L(NI(differ), NI(mode), N(0), entriesSx(A), entriesSx(Bl), NI(f), Bool(true))
 		}
 		out := runRecvAbs(in)
 		if len(out.L) == 2 && out.L[0].Kind == 'n' && out.L[0].U64() == 0xfffe {
@@ -749,6 +941,9 @@ func c05EmitCaseF(g *Gen, kind uint64, differ, mode int, order uint64, filter in
 	in := L(NI(differ), NI(mode), N(order), entriesSx(A), entriesSx(Bl))
 	if filter != 0 {
 		in = L(NI(differ), NI(mode), N(order), entriesSx(A), entriesSx(Bl), NI(filter))
+	}
+	if kind == 0x0502 {
+		in = L(NI(differ), NI(mode), N(0), entriesSx(A), entriesSx(Bl), NI(filter), Bool(true))
 	}
 	out := runRecvAbs(in)
 	if len(out.L) == 2 && out.L[0].Kind == 'n' && out.L[0].U64() == 0xfffe {
@@ -943,9 +1138,16 @@ func c05LinkMeta(g *Gen, kind uint64) {
 // c02EmitResync runs one two-synchronisation case (kind 0204) and emits it.  Non-trivial: the
 // first synchronisation succeeded, changed the destination listing, and left at least two entries.
 func c02EmitResync(g *Gen, differ int, order uint64, A, Bl []flatEntry, cls string) bool {
+	return c02EmitResyncF(g, differ, order, 0, A, Bl, cls)
+}
+
+func c02EmitResyncF(g *Gen, differ int, order uint64, filter int, A, Bl []flatEntry, cls string) bool {
 	fixSizes(A)
 	fixSizes(Bl)
 	in := L(NI(differ), N(order), entriesSx(A), entriesSx(Bl))
+	if filter != 0 {
+		in = L(NI(differ), N(order), entriesSx(A), entriesSx(Bl), NI(filter))
+	}
 	out := runResync(in)
 	if len(out.L) == 2 && out.L[0].Kind == 'n' && out.L[0].U64() == 0xfffe {
 		return false
@@ -1053,10 +1255,18 @@ func c05Filtered(g *Gen) {
 		}
 		return out
 	}
-	for filter := 0; filter <= 3; filter++ {
+	for filter := 0; filter <= 6; filter++ {
 		for edit := 0; edit < 5; edit++ {
 			for mode := 0; mode < 2; mode++ {
 				A, Bl := base(), clone(base())
+				if filter >= 5 || edit%2 == 1 {
+					// the source entries carry xattrs (the hashed header covers them): a filter that edits
+					// the values or the map of ITS COPY must not reach what is hashed and notified
+					Bl[0].St.Xattrs = map[string][]byte{"user.kb": {1, 2, 3}, "user.z": {0, 1, 2}}
+					Bl[1].St.Xattrs = map[string][]byte{"user.ka": {9}}
+					Bl[2].St.Xattrs = map[string][]byte{"user.z": {7, 7}}
+					Bl[3].St.Xattrs = map[string][]byte{"user.kc": {}, "user.z": {5}}
+				}
 				switch edit {
 				case 0: // directory mode edited at the source
 					Bl[0].St.Mode ^= 0050
@@ -1184,4 +1394,9 @@ func genC05(g *Gen) {
 	c05DirReplaced(g)
 	c05LinkMeta(g, 0x0501)
 	genRecvCases(g, 0x0501, g.Vol(700, 12000), true)
+	// the same through the real Send/Receive (kind 0502)
+	c05SpecialLinks(g, func(A, Bl []flatEntry, cls string) {
+		c05EmitCase(g, 0x0502, 0, 0, 0, c02CloneEntries(A), c02CloneEntries(Bl), cls)
+	})
+	genRecvCases(g, 0x0502, g.Vol(300, 5000), false)
 }
